@@ -154,6 +154,17 @@ def runMid {α : Type} (k : Fmt) (preload : Bool) (file : List α) (chosen : α 
   else fullScanMid (m.2.1 ⟨0, b.passes⟩) m.2.2.1 file chosen b.limit ret (scanChecksCtx k) plan.notices plan.sendWins
     fuel plan.j m.2.2.2 []
 
+/-! ## where the code asks whether it is preloading -/
+
+/-- the functions of components/providers/http{,/provider,/decoders} that read the config field `Preload`: `Run` (which
+path: `httpRun`'s `if preload`) and `Release` (`releasesToPool`).  NewProvider, the decoders, Acquire, loadAmmo and the
+two loops never ask — whatever else differs between the modes follows from the path Run takes. -/
+def preloadSites : List String := ["provider.Provider.Release", "provider.Provider.Run"]
+
+/-- `Provider.Release`: an ammo is handed back to the decoder (its pool) only when the provider is NOT preloading — a
+preloaded ammo is delivered again on the next pass and must not be recycled -/
+def releasesToPool (preload : Bool) : Bool := !preload
+
 /-- the token of the harness for such an end (`classifyRun`) -/
 def MidEnd.token (e : MidEnd) : String :=
   if e.run == .canceled && !e.recognised then "canceledw" else runName e.run
